@@ -57,7 +57,7 @@ def cases(tier, seed):
         out = [f"{lay}/{ik}/2" for lay in ("single-v", "wdwe", "season") for ik in ("pacific-dst", "gap")]
         out += ["single/pacific-dst/3", "single/unsorted/3"]
         out += ["billing-agg/flat/3", "billing-agg/v/2"]
-    out += ["history/wdwe-flat/5", "history/season/5", "dataclass/daily/elec", "dataclass/daily/dup", "dataclass/daily/long", "hourly-data/gaps/x", "caltrack/usage/x", "hourly/standardscaler/x", "hourly/robustscaler/x"]
+    out += ["history/wdwe-flat/5", "history/season/5", "dataclass/daily/elec", "dataclass/daily/dup", "dataclass/daily/long", "hourly-data/gaps/x", "hourly-history/state/x", "caltrack/usage/x", "hourly/standardscaler/x", "hourly/robustscaler/x"]
     return out
 
 
@@ -127,6 +127,8 @@ def run_case(case: Case, name: str):
         return run_history(case, ik, int(n))
     if lay == "hourly-data":
         return run_hourly_data(case)
+    if lay == "hourly-history":
+        return run_hourly_history(case)
     if lay == "caltrack":
         return run_caltrack(case)
     if lay == "dataclass" and n == "long":
@@ -332,6 +334,8 @@ def replay_dataclass(inp):
     n, env = inp["n"], inp["env"]
     idx, T = _dc_frames(n, False, env)
     o = np.array([float(env.get(f"o{i}", 1.0)) for i in range(n)])
+    if inp.get("o5") == "nan":
+        o[5] = np.nan
     q = np.array([float(env.get(f"q{i}", 1.0)) for i in range(n)])
     d1, d2 = _dc_frame(idx, T, o), _dc_frame(idx, T.copy(), q)
     m = F.model("single-v", tz="US/Pacific")
@@ -354,7 +358,7 @@ def run_dataclass(case):
     from . import dataclass as D
     n = 48
     case.inputs = [z3.Real(f"T{i}") for i in range(n)] + [z3.Real(f"o{i}") for i in range(n)] + [z3.Real(f"q{i}") for i in range(n)]
-    zero_rows = (3, 4, 30)
+    zero_rows = (3, 5, 30)  # row 5 also lacks its temperature reading: a row with neither usage nor temperature
 
     def run():
         eng = E.cur()
@@ -363,7 +367,10 @@ def run_dataclass(case):
                 eng.assume(z3.Real(f"o{i}") != 0)
             eng.assume(z3.Real(f"q{i}") != 0)
         idx, T = _dc_frames(n, True)
-        o = SymArray([SReal(z3.Real(f"o{i}")) for i in range(n)])
+        # the reading of row 5 (whose temperature is missing) may itself be missing in the first usage column
+        o5 = F.choose("o5_state", ["val", "nan"])
+        eng.path_notes["o5"] = o5
+        o = SymArray([NAN if (i == 5 and o5 == "nan") else SReal(z3.Real(f"o{i}")) for i in range(n)])
         q = SymArray([SReal(z3.Real(f"q{i}")) for i in range(n)])
         return _dc_frame(idx, T, o), _dc_frame(idx, T.copy(), q)
 
@@ -374,7 +381,7 @@ def run_dataclass(case):
             case.rep["harness_errors"].append(f"data class raised {p.value!r}")
             continue
         d1, d2 = p.value
-        rp = ("dataclass", lambda mdl: dict(n=n, env=model_env(mdl, case.inputs)))
+        rp = ("dataclass", (lambda st: lambda mdl: dict(n=n, o5=st, env=model_env(mdl, case.inputs)))(p.notes.get("o5", "val")))
         case.twin(p)
         eqs = [z3.BoolVal(list(d1.index) == list(d2.index))]
         X, Y = dict(zip(d1.index, cells(d1["temperature"]))), dict(zip(d2.index, cells(d2["temperature"])))
@@ -382,6 +389,7 @@ def run_dataclass(case):
             if t in Y:
                 eqs.append(to_real(lift(X[t])) == to_real(lift(Y[t])) if F.finite(X[t]) and F.finite(Y[t]) else z3.BoolVal(F.finite(X[t]) == F.finite(Y[t])))
         case.prove(p, z3.And(*eqs), "daily temperature handed to the model does not depend on the usage readings (incl. zero electricity readings)", replay=rp)
+        case.regime("row with neither usage nor temperature", p.notes.get("o5") == "nan")
         zero = any(str(c) in ("o%d == 0" % i, "0 == o%d" % i) for c in p.pc for i in zero_rows)
         case.regime("zero electricity reading", zero)
     case.sample(dict(feed="hourly electricity, 48 rows", paths=len(paths)))
@@ -666,6 +674,52 @@ def run_dataclass_long(case):
             case.violation(label, "dataclass_long", inp, det)
         case.regime("reporting period longer than a year with blank usage days")
     case.sample(dict(entry="DailyReportingData.from_series, 400 days", scenarios=len(paths)))
+
+
+# hourly model used twice: what an earlier, shorter prediction leaves behind must not make a later prediction depend on
+# the later period's usage (shuffled / scaled / absent usage give the prediction of a fresh model without usage)
+def replay_hourly_history(inp):
+    import logging
+    logging.disable(logging.CRITICAL)
+    from . import hourlyref as H
+    m = H.model(scaling=inp["scaling"])
+    m.predict(H.reporting(*{"two weeks in June": ("2021-06-07", 14), "three days in January": ("2021-01-04", 3)}[inp["first"]], usage=inp["first_usage"]))
+    span = ("2021-03-01", 120)
+    d = H.reporting(*span, usage=(inp["usage"] != "absent"), seed=3)
+    if inp["usage"] == "shuffled":
+        v = d._df["observed"].to_numpy().copy()
+        np.random.default_rng(9).shuffle(v)
+        d._df["observed"] = v
+    elif inp["usage"] == "scaled":
+        d._df["observed"] = d._df["observed"] * 4.0
+    got = m.predict(d)["predicted"].to_numpy(dtype=float)
+    want = H.model(scaling=inp["scaling"]).predict(H.reporting(*span, usage=False, seed=3))["predicted"].to_numpy(dtype=float)
+    bad = [i for i in range(len(want)) if not ((got[i] != got[i] and want[i] != want[i]) or got[i] == want[i])] if got.shape == want.shape else [0]
+    return bool(bad), (f"{len(bad)} of {len(want)} hourly predictions of the second call depend on its usage column ('{inp['usage']}') after an earlier predict of {inp['first']}" if bad else "")
+
+
+REPLAY["hourly_history"] = replay_hourly_history
+
+
+def run_hourly_history(case):
+    case.inputs = []
+
+    def run():
+        inp = dict(scaling=F.choose("scaling", ["standardscaler", "robustscaler"]), first=F.choose("first", ["two weeks in June", "three days in January"]),
+                   first_usage=F.choose("first_usage", [True, False]), usage=F.choose("usage", ["present", "shuffled", "scaled", "absent"]))
+        return inp, replay_hourly_history(inp)
+
+    paths = case.explore(run)
+    for p in paths:
+        if p.outcome != "ret":
+            case.rep["harness_errors"].append(f"hourly history scenario raised {p.value!r}")
+            continue
+        inp, (bad, det) = p.value
+        label = "hourly model: after an earlier, shorter prediction a later prediction still does not depend on the later period's usage"
+        if not case.ground(not bad, label):
+            case.violation(label, "hourly_history", inp, det)
+        case.regime("hourly model predicts a long period after a short one")
+    case.sample(dict(entry="HourlyModel.predict twice on one object", scenarios=len(paths)))
 
 
 # a timestamp delivered twice (CalTRACK 2.3.2.2 keeps the first record): which record's temperature survives must not
